@@ -137,6 +137,14 @@ CLAIMS = {
         "No controlling terminal in the case process (terminal hand-over not exercised); single faults only; races between stage threads are observed in real time, not enumerated: a scheduling-sensitive observation counts only when reproduced 3 out of 3; fds a finalizer closes are counted after gc.collect().",
         "DESIGN.md §3 C09",
     ),
+    "C03": (
+        "exploration",
+        "bounded-exhaustive differential execution: every chain of <= 2 (thorough 3) command segments x statement positions rendered bare and as its hand-wrapped ![...] twin through the real Execer.parse / exec with recording aliases; every string over a 24-symbol token alphabet through Execer.parse under work budgets for the termination clause",
+        "gramx",
+        "Every chain of up to 2 (thorough 3) segments of up to 3 (4) words over the statement's word alphabet (plain words, quoted strings, $VAR, @(), $(), redirects, pipes, trailing &, --k=v, comma words), joined by and/or/&&/||/;, with up to 2 word or position deviations (top level, after ;, indented blocks to depth 3 with tab/2/4-space indents, sibling statements, one-line compound statements, backslash continuations before/after operators and inside segments) is rendered as a bare program and as a generator-wrapped explicit twin; both go through the real Execer.parse with the same bound names and are compared by location-free tree dump; differing trees are executed under every return-code assignment and both raise-flag settings with callable aliases recording argv, order, redirect targets and raise/no-raise. Part B feeds every string up to length 3 over the full 24-symbol token alphabet (length 4/5 on 16/10-symbol subsets; thorough one longer each) to Execer.parse(s, ctx=set()) under parser-call, work and CPU budgets: the outcome must be a program or a SyntaxError.",
+        "Commands are callable aliases; ctx is builtins plus four bound names; trees that differ only in the in_boolop keyword are decided by running the minimal form; lines with a trailing & are compared by tree only; a timing-dependent trace difference counts only when it repeats three times.",
+        "DESIGN.md §3 C03",
+    ),
     "C02": (
         "exploration",
         "bounded-exhaustive product of binder kinds x command-looking uses x scope placements through the real Execer, compared with ast.parse and CPython exec on instrumented objects with a spawn recorder",
@@ -169,7 +177,7 @@ ENGINES = [
     {"name": "crashx", "path": "xv/crashx.py", "serves_properties": ["C09", "C13", "C19"], "kind_free_text": "records the file-operation log of a write history through shims bound into the module under test, then enumerates every crash point, torn write and failing call in forked children; strace syscall injection for libsqlite3"},
     {"name": "pysched", "path": "xv/pysched.py", "serves_properties": ["C06", "C11", "C12"], "kind_free_text": "stateless preemption-bounded exploration of real CPython threads: baton scheduler, line-event scheduling points in named functions, cooperative Lock/Condition/sleep/join shims, DFS over choice prefixes with replay-divergence detection"},
     {"name": "seqx", "path": "xv/seqx.py", "serves_properties": ["C08", "C10", "C11", "C12", "C16", "C19", "C20"], "kind_free_text": "explicit-state breadth-first search whose transitions call the real entry points on a freshly replayed implementation; canonical state hashing; lock-step reference"},
-    {"name": "gramx", "path": "xv/", "serves_properties": ["C01", "C02", "C04", "C05", "C07", "C14", "C15", "C17", "C18"], "kind_free_text": "bounded-exhaustive enumeration of structured inputs run through the real implementation, compared with a reference"},
+    {"name": "gramx", "path": "xv/", "serves_properties": ["C01", "C02", "C03", "C04", "C05", "C07", "C14", "C15", "C17", "C18"], "kind_free_text": "bounded-exhaustive enumeration of structured inputs run through the real implementation, compared with a reference"},
 ]
 
 
